@@ -163,6 +163,14 @@ def start_values(ctx):
     ok = bool(pops) and bool(wcalls) and all(cfgw.dominates(pops, i) for i in wcalls)
     ctx.check(ok, f'{wi.qualname}:value popped before it is written', wi.node, 'writeDict.pop dominates the write call',
               'the value is written before it is removed from writeDict: it can be written more than once', wi)
+    # the pop IS the test-and-take: the written value has to be the result of the pop (a value listed earlier may have been
+    # taken - and written - by a write handler covering several parameters in the meantime)
+    for c in [c for c in calls_in(wi.node) if isinstance(c.func, ast.Name) and c.func.id == 'wfunc' and c.args]:
+        o = origins(c.args[0], wi.node)
+        taken = bool(o) and all(isinstance(x, ast.Call) and call_attr(x) == 'pop' and src(x.func.value) == 'self.writeDict' for x in o)
+        ctx.check(taken, f'{wi.qualname}:written value is the popped one', c, 'wfunc(value) with value = self.writeDict.pop(pname, <sentinel>)',
+                  f'`{src(c)}` writes {[src(x) for x in o]}, a value listed before the pop: when writing one parameter lets a common write handler '
+                  'send (and pop) the other pending values too, the loop still writes them again - configured values reach the hardware twice', wi)
 
 
 @rule('C10.R5', min_instances=4)
@@ -233,3 +241,12 @@ def wrappers_use_the_instance_parameter(ctx):
                               'inside the widened limits is refused)', w)
     if not n:
         raise AnchorMissing('no datatype use found in the generated wrappers')
+
+
+@rule('C10.R8', min_instances=1)
+def configured_value_wins_over_the_stored_one(ctx):
+    """shared with C17.R4 / C17.R4b: a value given in the configuration is the start value even when a persistent value is
+    stored: the restore is guarded by `not pobj.given` and `given` is set for every configured value, write method or not"""
+    from sa.rules import c17
+    c17.precedence(ctx)
+    c17.given_flag_is_set_for_every_configured_value(ctx)
